@@ -40,6 +40,21 @@ namespace plan
         else if (r == 2)
           cnt.inc("p1.unevaluable");
       }
+      else if (st.k == Stmt::DISJ)
+      { // a necessary condition: the constraints of at least one disjunct hold on the reported values
+        bool some = false;
+        for (auto &br : st.item->branches)
+        {
+          bool all = true;
+          for (auto &it : br)
+            if (it->k == BodyItem::ASSERT && eval(it->b, top, none) == 0)
+              all = false;
+          some = some || all;
+        }
+        cnt.inc("p1.disjunction_statements");
+        if (!some)
+          viol("P1", "P1.disjunction_statement", "solve() reported success but no disjunct of `" + st.text + "` has its constraints satisfied by the reported values");
+      }
       else if (st.k == Stmt::FORMULA)
       {
         auto *a = dynamic_cast<ratio::atom *>(resolve(top, none, {st.item->local}));
@@ -125,7 +140,7 @@ namespace plan
           loc[bi->local] = c;
           cnt.inc("p1.subgoals");
           auto cf = flaw_of.find(c);
-          if (c->get_type().get_name() != m.preds[bi->pred].name)
+          if (c->get_type().get_name() != (bi->pred == -2 ? std::string("Use") : m.preds[bi->pred].name))
             viol("P1", "P1.subgoal_wrong_predicate", "sub-goal " + bi->local + " of " + aname(a) + " has predicate " + c->get_type().get_name());
           if (cf == flaw_of.end() || lval(cf->second->get_phi()) != smt::True || sigma(*c) == smt::Undefined)
             viol("P1", "P1.subgoal_not_in_plan", "active goal " + aname(a) + ": its sub-goal " + aname(*c) + " is not part of the plan");
